@@ -191,7 +191,7 @@ func (p *Path) prepareCall(fr *frame, call *ssa.CallCommon) (fn value, args []va
 		fn = v
 	} else {
 		recv := v.(iface)
-		if recv.t == nil {
+		if recv.t == nil && recv.v == nil {
 			panic(p.rtPanic("invalid memory address or nil pointer dereference (method call on nil interface)"))
 		}
 		fn = p.lookupMethod(recv, call.Method)
@@ -412,6 +412,9 @@ const (
 )
 
 func (p *Path) rtPanic(msg string) targetPanic {
+	if p.cur != nil && p.cur.fr != nil {
+		msg += " [at " + p.cur.fr.where() + "]"
+	}
 	return targetPanic{iface{t: nil, v: &runtimeErr{msg}}}
 }
 
